@@ -22,6 +22,12 @@ func c12(c *Ctx) {
 		class := []string{"small", "one", "mid", "empty", "deep", "small"}[i%6]
 		mode := modeFor(i, rng)
 		b := model.Gen(rng, class, model.GenOpts{Syn: true, Vec: VecBuild && rng.Intn(3) == 0, NoBig: true})
+		if i%40 == 39 {
+			// a term with very many synonyms
+			n := []int{1024, 1023, 1025, 2048, 4096, 4097, 512}[(i/40)%7]
+			model.AddBigSynonymDoc(b, fmt.Sprintf("bigsyn%d", i), model.ThesPool[(i/40)%2], "big", n)
+			c.R.Inc("batches_with_a_big_synonym_list", 1)
+		}
 		fp := b.Fingerprint()
 		id := fmt.Sprintf("s%d", i)
 		m := model.Build(b)
